@@ -976,3 +976,93 @@ Proof.
   intros x y Hxy. inversion Hxy as [H2]. revert H2. apply M.
   intros c d Hcd. inversion Hcd as [H3]. now apply N2Z.inj.
 Qed.
+
+(** ---- the models' own answers pass the decidable predicates (Proofs/C05_ModelOk.v) ---- *)
+From Elfi Require Import Proofs.C05_ModelOk.
+
+(** Layout level, every observation: if the model's file content and read-backs equal the
+    implementation's ([store_agree]) then the implementation's read-backs have the property
+    ([store_ok]); so on the array observations of every case [agree] implies their clause of [ok]. *)
+Theorem C05_store_agree_implies_store_ok :
+  forall o, store_agree o = true -> store_ok o = true.
+Proof. exact store_agree_ok. Qed.
+Print Assumptions C05_store_agree_implies_store_ok.
+
+Theorem C05_agree_implies_arrays_ok :
+  forall c, Pool.agree c = true -> forallb store_ok (o_arrays c) = true.
+Proof. exact agree_arrays_ok. Qed.
+Print Assumptions C05_agree_implies_arrays_ok.
+
+(** [model_store_obs on_disk bs]: the batches [bs], the file the model writes ([append_all bs], when
+    on disk) and per batch what the model reads back from it.  For all batches of one shape whose
+    elements lie inside their buffers ([in_bounds]; any strides, offsets, layouts) the model's own
+    stored bytes pass [store_agree] and [store_ok]. *)
+Theorem C05_model_store_ok :
+  forall on_disk bs, shapes_equal bs = true -> in_bounds bs = true ->
+    store_agree (model_store_obs on_disk bs) = true /\ store_ok (model_store_obs on_disk bs) = true.
+Proof. intros on_disk bs Hs Hb. split; [now apply model_store_agree | now apply model_store_ok]. Qed.
+Print Assumptions C05_model_store_ok.
+
+(** [in_bounds] is necessary: [store_ok] never holds for batches with an element outside the buffer *)
+Theorem C05_store_ok_needs_in_bounds :
+  forall o, store_ok o = true -> in_bounds (so_batches o) = true.
+Proof. exact store_ok_in_bounds. Qed.
+Print Assumptions C05_store_ok_needs_in_bounds.
+
+(** Pool level.  [model_case stored specs on_disk arrays]: the case whose observations are the model's
+    own runs (replayed as [Pool.agree] replays them: per run how handler and context are obtained, the
+    model, the requested outputs, the removed stores, the number of batches; recorded per batch the
+    outputs and the operation log, after the run the pool dump) and the model's own array round
+    trips.  It passes [Pool.agree] for all inputs ... *)
+Theorem C05_model_case_agrees :
+  forall stored specs on_disk arrays,
+    (forall bs, In bs arrays -> shapes_equal bs = true /\ in_bounds bs = true) ->
+    Pool.agree (model_case stored specs on_disk arrays) = true.
+Proof. exact model_case_agree. Qed.
+Print Assumptions C05_model_case_agrees.
+
+(** ... and [Pool.ok] on it is exactly its run clause.  PARTIAL: that
+    [ok_runs stored [] [] (model_runs (empty_pool stored) None specs) = true] for ALL well-formed
+    histories is not proved (it needs C03's [model_log_exact] composed with the growth of the
+    handler's output set along [run_batches]); it holds by computation on the histories below. *)
+Theorem C05_model_ok_partial :
+  forall stored specs on_disk arrays,
+    (forall bs, In bs arrays -> shapes_equal bs = true /\ in_bounds bs = true) ->
+    Pool.ok (model_case stored specs on_disk arrays)
+    = ok_runs stored [] [] (model_runs (empty_pool stored) None specs).
+Proof. exact model_ok_partial. Qed.
+Print Assumptions C05_model_ok_partial.
+
+(** Non-vacuity and the pool-level instances: on the MA2-like model with stores for the simulator and
+    the summary, a history of five runs (a new inference object over 2 batches; the same handler over 3;
+    the same handler over 1 after the summary's store was removed; a new handler on the same context
+    over 2; a new inference object asking for the summary over 4 after the simulator's store was
+    removed) all succeed in the model, and the model's own outputs, operation logs and pool dumps pass
+    [Pool.ok] and [Pool.agree], with a C-ordered and a Fortran-ordered batch through an on-disk store.
+    Likewise with all four nodes stored.  A [SameHandler] run must repeat the outputs of the run
+    before it (the handler keeps its compiled net): otherwise the model's answer is for the old
+    outputs and [ok], which reads [ro_outputs], rejects it (last conjunct). *)
+Definition c5_spec (r : reuse) (outs rm : list name) (n : nat) : run_spec :=
+  {| sp_reuse := r; sp_src := c5_src; sp_outputs := outs; sp_removed := rm; sp_batches := n |}.
+Example C05_model_ok_example :
+  let mc := model_case ["y"; "s"]%string
+              [c5_spec Fresh ["d"%string] [] 2; c5_spec SameHandler ["d"%string] [] 3;
+               c5_spec SameHandler ["d"%string] ["s"%string] 1; c5_spec SameContext ["d"%string] [] 2;
+               c5_spec Fresh ["s"%string] ["y"%string] 4]
+              true [[c5_nd_c; c5_nd_f]] in
+  let mc4 := model_case ["t"; "y"; "s"; "d"]%string
+              [c5_spec Fresh ["s"%string] [] 2; c5_spec Fresh ["d"%string] [] 3;
+               c5_spec SameHandler ["d"%string] ["y"%string] 4; c5_spec Fresh ["y"; "d"]%string ["t"%string] 5]
+              false [] in
+  let bad := model_case ["y"%string] [c5_spec Fresh ["s"%string] [] 2; c5_spec SameHandler ["d"%string] [] 3] false [] in
+  shapes_equal [c5_nd_c; c5_nd_f] = true /\ in_bounds [c5_nd_c; c5_nd_f] = true
+  /\ map (fun r => map snd (ro_batches r)) (o_runs mc)
+     = [[["s"; "t"; "y"; "s"; "d"]; ["s"; "t"; "y"; "s"; "d"]];
+        [["s"; "d"]; ["s"; "d"]; ["s"; "t"; "y"; "s"; "d"]];
+        [["s"; "s"; "d"]];
+        [["s"; "s"; "d"]; ["s"; "s"; "d"]];
+        [["t"; "y"; "s"]; ["t"; "y"; "s"]; ["t"; "y"; "s"]; ["t"; "y"; "s"]]]%string
+  /\ Pool.ok mc = true /\ Pool.agree mc = true
+  /\ List.length (o_runs mc4) = 4%nat /\ Pool.ok mc4 = true /\ Pool.agree mc4 = true
+  /\ List.length (o_runs bad) = 2%nat /\ Pool.agree bad = true /\ Pool.ok bad = false.
+Proof. vm_compute. repeat split. Qed.
